@@ -23,6 +23,16 @@ use std::time::{Duration, Instant};
 
 thread_local! {
   static TID: Cell<Option<usize>> = const { Cell::new(None) };
+  /// storage reads of this thread are counted (and may pause) only while this is set
+  static COUNT_READS: Cell<bool> = const { Cell::new(false) };
+}
+
+/// additional pause point from hook H1 (filesystem backend): thread `thread` pauses right before
+/// its `k`-th storage read (`open_read` / `read_to_end`) inside a `Ctx::count_reads` region
+#[derive(Clone, Copy, Debug)]
+pub struct FsPause {
+  pub thread: usize,
+  pub k: usize,
 }
 
 #[derive(Clone, Debug)]
@@ -131,6 +141,8 @@ struct State {
   /// per thread: it is inside `IndexReader::open` between the manifest copy and the last open,
   /// i.e. it holds the manifest read guard (repaired protocol)
   holds_read: Vec<bool>,
+  /// per thread: storage reads counted so far
+  fs_reads: Vec<usize>,
 }
 
 pub struct Sched {
@@ -183,7 +195,7 @@ impl Sched {
     // (the compaction's own internal reader has released it when `compact.after_segment` is hit)
     if name == "reader.after_manifest_copy" {
       g.holds_read[tid] = true;
-    } else if !name.starts_with("reader.") {
+    } else if name.starts_with("compact.") || name.starts_with("commit.") {
       g.holds_read[tid] = false;
     }
     g.last_point[tid] = name.to_string();
@@ -231,6 +243,13 @@ impl Ctx {
     }
     self.sched.arrive(self.tid, "free", &format!("call.begin:{k}"));
   }
+  /// run `f` with this thread's storage reads counted (and pausable, see `FsPause`)
+  pub fn count_reads<T>(&self, f: impl FnOnce() -> T) -> T {
+    COUNT_READS.with(|c| c.set(true));
+    let r = f();
+    COUNT_READS.with(|c| c.set(false));
+    r
+  }
   /// recorded, never pauses
   pub fn end(&self, k: usize) {
     let mut g = self.sched.st.lock().unwrap();
@@ -254,6 +273,8 @@ pub struct RunOut {
   pub blocked_unpredicted: usize,
   /// per thread: it was treated as blocked at least once
   pub was_blocked: Vec<bool>,
+  /// per thread: storage reads inside `Ctx::count_reads` regions
+  pub fs_reads: Vec<usize>,
   pub stuck: bool,
 }
 
@@ -276,7 +297,13 @@ impl Default for Timing {
 pub type Body = Box<dyn FnOnce(&Ctx) -> Vec<Value> + Send + 'static>;
 
 /// Run the bodies as threads of one index rooted at `root` under the controlled scheduler.
-pub fn run(root: &Path, mut strategy: Strategy, timing: Timing, pauses: Pauses, on_point: Option<OnPoint>, bodies: Vec<Body>) -> RunOut {
+pub fn run(root: &Path, strategy: Strategy, timing: Timing, pauses: Pauses, on_point: Option<OnPoint>, bodies: Vec<Body>) -> RunOut {
+  run_fs(root, strategy, timing, pauses, on_point, None, bodies)
+}
+
+/// `run` with storage reads of the filesystem backend reported through hook H1: they are counted
+/// per thread and `fs_pause` makes one of them a pause point (event `storage.read`)
+pub fn run_fs(root: &Path, mut strategy: Strategy, timing: Timing, pauses: Pauses, on_point: Option<OnPoint>, fs_pause: Option<FsPause>, bodies: Vec<Body>) -> RunOut {
   let n = bodies.len();
   let start = Instant::now();
   let sched = Arc::new(Sched {
@@ -288,6 +315,7 @@ pub fn run(root: &Path, mut strategy: Strategy, timing: Timing, pauses: Pauses, 
       wants_writer: vec![false; n],
       wants_manifest: vec![false; n],
       holds_read: vec![false; n],
+      fs_reads: vec![0usize; n],
     }),
     cv: Condvar::new(),
     pauses,
@@ -301,6 +329,30 @@ pub fn run(root: &Path, mut strategy: Strategy, timing: Timing, pauses: Pauses, 
         if let Some(tid) = TID.with(|t| t.get()) {
           s2.arrive(tid, classify(kind, name), name);
         }
+      }),
+    );
+  }
+  {
+    let s2 = sched.clone();
+    verif::install(
+      root.to_path_buf(),
+      Arc::new(move |ev: &verif::FsEvent| {
+        if ev.after || !(ev.op == "open_read" || ev.op == "read") || !COUNT_READS.with(|c| c.get()) {
+          return Ok(());
+        }
+        if let Some(tid) = TID.with(|t| t.get()) {
+          let k = {
+            let mut g = s2.st.lock().unwrap();
+            g.fs_reads[tid] += 1;
+            g.fs_reads[tid]
+          };
+          if let Some(p) = fs_pause {
+            if p.thread == tid && p.k == k {
+              s2.arrive(tid, "free", "storage.read");
+            }
+          }
+        }
+        Ok(())
       }),
     );
   }
@@ -409,6 +461,7 @@ pub fn run(root: &Path, mut strategy: Strategy, timing: Timing, pauses: Pauses, 
     sched.cv.notify_all();
   }
   let trace = g.trace.clone();
+  let fs_reads = g.fs_reads.clone();
   drop(g);
   if !stuck {
     for h in handles {
@@ -416,8 +469,9 @@ pub fn run(root: &Path, mut strategy: Strategy, timing: Timing, pauses: Pauses, 
     }
   }
   verif::uninstall_points(root);
+  verif::uninstall(root);
   let results = results.lock().unwrap().clone();
-  RunOut { trace, results, steps, blocked_predicted, blocked_unpredicted, was_blocked, stuck }
+  RunOut { trace, results, steps, blocked_predicted, blocked_unpredicted, was_blocked, fs_reads, stuck }
 }
 
 /// the lock thread `t` needs next is known to be held by another thread: the writer lock by the
